@@ -70,7 +70,7 @@ class StateScenario(Scenario):
         if self.prop == "C12":
             w.update({"reset": 4, "ctor": 1.5, "lop": 1.5, "dop": 1})
         if self.prop == "C15":
-            w.update({"load_tree": 4, "loads": 4, "assign_sub": 3, "ctor": 1.5, "lop": 1.5, "dop": 1, "reset": 0.3})
+            w.update({"load_tree": 4, "loads": 4, "assign_sub": 3, "ctor": 1.5, "lop": 1.5, "dop": 1, "reset": 0.3, "item_history": 0.8})
         # swarm: drop a random subset of operation kinds in this run
         for k in list(w):
             if rng.random() < 0.15:
@@ -415,6 +415,63 @@ class StateScenario(Scenario):
             sp = rng.choice(same)      # the very same field elsewhere in the tree (another list item, another use of a config type)
         return {"op": "set_from", "path": d.path, "src": sp.path, "src_cfg": src_cfg}
 
+    def gen_item_history(self, st, rng, cfg, tgts, cfgpaths, owners):
+        """C15: a list of configurations is copied / concatenated (results thrown away) and loses its first item; then a value is
+        rejected for a field of the item that moved up: the error must name the item's index as it is now."""
+        if self.prop != "C15":
+            return None
+        cands = []
+        for t in tgts:
+            if t.node["kind"] == "list" and t.node.get("item") and schema.is_cfg_node(t.node["item"]) and type(t.value).__name__ == "ListProxy" \
+                    and len(t.value) >= 2 and "[" not in t.path:
+                inode = schema.sub_schema_node(st.sd, t.node["item"])
+                leaves = [f for f in inode["fields"] if not schema.is_cfg_node(f) and f["kind"] not in ("virtual", "method", "list", "dict", "any", "secure", "challenge")
+                          and not f.get("validator")]
+                if leaves:
+                    cands.append((t, leaves))
+        if not cands:
+            return None
+        t, leaves = rng.choice(cands)
+        f = rng.choice(leaves)
+        bad = values.gen_value(rng, f, "invalid", st.ctx)
+        if model.norm(f, bad, st.ctx) != REJ:
+            return None
+        return {"op": "item_history", "path": t.path, "key": f["key"], "v": enc(bad), "drop": rng.choice(["pop0", "del0", "reverse"])}
+
+    def do_item_history(self, st, cfg, c, op, rec):
+        try:
+            lst = ops.resolve(cfg, op["path"])
+        except Exception:  # noqa: BLE001
+            lst = None
+        if type(lst).__name__ != "ListProxy" or len(lst) < 2:
+            rec.log("item_history", "skip")
+            return
+        node = self.node_for(st, cfg, op["path"])
+        inode = schema.sub_schema_node(st.sd, node["item"])
+        f = next((x for x in inode["fields"] if x["key"] == op["key"]), None)
+        if f is None:
+            rec.log("item_history", "skip")
+            return
+        _, e1 = self._call(lambda: (lst.copy(), lst + []))
+        if op["drop"] == "pop0":
+            _, e2 = self._call(lambda: lst.pop(0))
+        elif op["drop"] == "del0":
+            _, e2 = self._call(lambda: lst.__delitem__(0))
+        else:
+            _, e2 = self._call(lst.reverse)
+        if e1 is not None or e2 is not None or not len(lst):
+            rec.log("item_history", "setup-failed")
+            return
+        item = list.__getitem__(lst, 0)
+        v = dec(op["v"])
+        _, err = self._call(lambda: setattr(item, op["key"], v))
+        rec.log("item_history", op["path"], op["key"], type(err).__name__ if err else "ok")
+        if err is None:
+            return
+        if model.norm(f, v, st.ctx) == REJ:
+            self.check_rejection(st, rec, err, "%s[0].%s" % (op["path"], op["key"]), f, "set-attr")
+            rec.probe("item-path-after-copy-and-shift")
+
     def gen_cmdline(self, st, rng, cfg, tgts, cfgpaths, owners):
         """A command-line override of a few scalar fields (valid and invalid values alike)."""
         scal = [t for t in tgts if "[" not in t.path and t.node["kind"] in ("string", "int", "float", "port", "bool", "ipv4addr", "ipv4net",
@@ -573,11 +630,16 @@ class StateScenario(Scenario):
         item = t.node["item"]
         n = len(t.value)
         name = rng.choice(["append", "append", "insert", "setitem", "extend", "slice_set", "iadd", "pop", "clear", "reverse",
-                           "delitem", "imul", "remove_first"])
+                           "delitem", "imul", "remove_first", "copy_discard"])
         if schema.is_cfg_node(item) and rng.random() < (0.6 if self.prop == "C06" else 0.35):
             name = "setitem" if n and rng.random() < 0.6 else "append"
 
         def one():
+            if schema.is_cfg_node(item) and self.prop == "C06" and rng.random() < 0.2:
+                # an item that already sits in another list of the same item type is handed over (moved) as it is
+                others = [x for x in cls if x.path != t.path and x.node["item"] is item and len(x.value)]
+                if others:
+                    return {"$move": rng.choice(others).path}
             if schema.is_cfg_node(item):
                 inode = schema.sub_schema_node(st.sd, item)
                 tree = ops.gen_tree(rng, st.sd, inode, st.ctx, p_key=0.6)
@@ -1423,6 +1485,9 @@ class StateScenario(Scenario):
         """Materialise one generated list element: raw value, map, or fresh configuration."""
         if "$raw" in spec:
             return dec(spec["$raw"]), None
+        if "$move" in spec:
+            src = ops.resolve(self._cur_cfg, spec["$move"])
+            return list.__getitem__(src, 0), None
         tree = dec(spec["$tree"])
         if spec.get("as_config"):
             item = node["item"]
@@ -1432,6 +1497,7 @@ class StateScenario(Scenario):
         return tree, tree
 
     def do_lop(self, st, cfg, c, op, rec):
+        self._cur_cfg = cfg
         path, name = op["path"], op["name"]
         node = self.node_for(st, cfg, path)
         try:
@@ -1464,10 +1530,10 @@ class StateScenario(Scenario):
         elif name == "insert":
             _, err = self._call(lambda: lst.insert(i, v))
         elif name == "setitem":
-            if not (-n <= i < n):
+            if not (-n <= i < n) and self.prop != "C06":
                 rec.log("lop", "skip-index")
                 return
-            _, err = self._call(lambda: lst.__setitem__(i, v))
+            _, err = self._call(lambda: lst.__setitem__(i, v))       # (C06: a replacement at an index that does not exist is a rejected one)
         elif name == "extend":
             _, err = self._call(lambda: lst.extend(vs))
         elif name == "iadd":
@@ -1485,6 +1551,9 @@ class StateScenario(Scenario):
             _, err = self._call(lst.reverse)
         elif name == "imul":
             _, err = self._call(lambda: lst.__imul__(op.get("n", 1)))
+        elif name == "copy_discard":
+            # read-only uses of the list: a copy and a concatenation whose results are thrown away
+            _, err = self._call(lambda: (lst.copy(), lst + [], list(lst))[0] and None)
         elif name == "remove_first":
             _, err = self._call(lambda: lst.remove(list.__getitem__(lst, 0)) if n else None)
         else:
